@@ -47,16 +47,40 @@ def srcStep (s : Src α) : Step α × Src α :=
 
 def src : IM (Src α) α := ⟨srcStep⟩
 
-/-- `iterator.Counter(n)`: state `i`. -/
+/-- `counterIterator.Next`: state `i`, limit `n`; the yielded item is the regenerated `iter.i`. -/
 def counter (n : Int) : IM Int Int :=
-  ⟨fun i => if itCounterDone i n then (.done, i) else (.item i, if itCounterAdvances then i + 1 else i)⟩
+  ⟨fun i => if itCounterDone i n then (.done, i) else (.item (itCounterItem i n), if itCounterAdvances then i + 1 else i)⟩
 
-/-- `iterator.Repeat(item, n)`: state `x`. -/
+/-- `iterator.Counter(n)` = `&counterIterator{i: 0, n: n}`: the machine (its limit) and its first state,
+both from the regenerated field initialisers -/
+def counterOf (n : Int) : IM Int Int := counter (itCounterInitN n)
+def counterInit (n : Int) : Int := itCounterInitI n
+
+/-- `repeatIterator.Next`: state `x`. -/
 def repeat_ (a : α) : IM Int α :=
   ⟨fun x => if itRepeatDone x then (.done, x) else (.item a, if itRepeatDecrements then x - 1 else x)⟩
 
-/-- `iterator.Empty()`. -/
-def empty : IM Unit α := ⟨fun u => (.done, u)⟩
+/-- `iterator.Repeat(item, n)` = `&repeatIterator{item: item, x: n}` -/
+def repeatInit (n : Int) : Int := itRepeatInitX n
+
+/-- `iterator.Empty()`: `return zero, false` (the regenerated second result; `true` would be an iterator
+that yields zero values for ever: it never answers). -/
+def empty : IM Unit α := ⟨fun u => if itEmptyOk then (.skip, u) else (.done, u)⟩
+
+/-- `iterator.Chan(c)`: `buf` = what the channel holds, `closed` = it was closed. `Next` is
+`item, ok := <-iter.c; return item, ok` (the regenerated statement list): the next buffered value; on a
+closed and drained channel `(zero, false)`; a receive from an empty open channel blocks (`skip` for ever). -/
+structure ChanSt (α : Type v) where
+  buf : List α
+  closed : Bool := true
+
+def chan : IM (ChanSt α) α :=
+  ⟨fun st =>
+    if itChanBody = ["item, ok := <-iter.c", "return item, ok"] then
+      match st.buf with
+      | a :: r => (.item a, { st with buf := r })
+      | [] => if st.closed then (.done, st) else (.skip, st)
+    else (.skip, st)⟩
 
 /-! ## Peekable -/
 
@@ -119,16 +143,24 @@ def compact (eq : α → α → Bool) (m : IM σ α) : IM (CompactSt σ α) α :
         (.item a, { inner := s', first := if itCompactClearsFirst then false else true, prev := setPrev })
       else
         match st.prev with
-        | some p => if !eq p a then (.item a, { st with inner := s', prev := setPrev })
+        | some p => if itCompactKeeps eq p a then (.item a, { st with inner := s', prev := setPrev })
                     else (.skip, { st with inner := s' })
         | none => (.item a, { st with inner := s', prev := setPrev })
     | (.skip, s') => (.skip, { st with inner := s' })
     | (.done, s') => (.done, { st with inner := s' })⟩
 
+/-- `iterator.CompactFunc(iter, eq)` = `&compactIterator{inner: iter, first: true, eq: eq}` -/
+def compactInit (s : σ) : CompactSt σ α := { inner := s, first := itCompactInitFirst, prev := none }
+
+/-- `iterator.Compact(iter)` = `CompactFunc(iter, func(a, b T) bool { return a == b })` (regenerated body,
+`CompactFunc` as a parameter) -/
+def compactEq [BEq α] (m : IM σ α) : IM (CompactSt σ α) α :=
+  itCompactW (fun (m : IM σ α) (eq : α → α → Bool) => compact eq m) m
+
 def filter (keep : α → Bool) (m : IM σ α) : IM σ α :=
   ⟨fun s =>
     match m.step s with
-    | (.item a, s') => if keep a then (.item a, s') else (.skip, s')
+    | (.item a, s') => if itFilterKeeps keep a then (.item a, s') else (.skip, s')
     | (.skip, s') => (.skip, s')
     | (.done, s') => (.done, s')⟩
 
@@ -150,6 +182,9 @@ def first (m : IM σ α) : IM (FirstSt σ) α :=
       match m.step st.inner with
       | (.skip, s') => (.skip, { inner := s', x := x', inCall := true })
       | (r, s') => (r, { inner := s', x := x', inCall := false })⟩
+
+/-- `iterator.First(iter, n)` = `&firstIterator{inner: iter, x: n}` -/
+def firstInit (s : σ) (n : Int) : FirstSt σ := { inner := s, x := itFirstInitX n }
 
 /-- `flattenIterator{inner, curr}`; the outer iterator yields states of the inner machine `mi`. -/
 structure FlattenSt (σ : Type u) (τ : Type w) where
@@ -173,13 +208,16 @@ def flatten (mo : IM σ τ) (mi : IM τ α) : IM (FlattenSt σ τ) α :=
 /-- `joinIterator{iters}`: the remaining iterators (states of one machine). -/
 def join (m : IM σ α) : IM (List σ) α :=
   ⟨fun st =>
-    match st with
-    | [] => (.done, [])
-    | s :: r =>
-      match m.step s with
-      | (.item a, s') => (.item a, s' :: r)
-      | (.skip, s') => (.skip, s' :: r)
-      | (.done, s') => (.skip, if itJoinAdvances then r else s' :: r)⟩
+    -- `for len(iter.iters) > 0 { … }`
+    if itJoinLoops (st.length : Int) then
+      match st with
+      | [] => (.done, [])
+      | s :: r =>
+        match m.step s with
+        | (.item a, s') => (.item a, s' :: r)
+        | (.skip, s') => (.skip, s' :: r)
+        | (.done, s') => (.skip, if itJoinAdvances then r else s' :: r)
+    else (.done, st)⟩
 
 def map (f : α → β) (m : IM σ α) : IM σ β :=
   ⟨fun s =>
@@ -198,10 +236,13 @@ def while_ (f : α → Bool) (m : IM σ α) : IM (WhileSt σ) α :=
     else
       match m.step st.inner with
       | (.item a, s') =>
-        if !f a then (.done, { inner := s', done := if itWhileSetsDone then true else st.done })
+        if itWhileStops f a then (.done, { inner := s', done := if itWhileSetsDone then true else st.done })
         else (.item a, { st with inner := s' })
       | (.skip, s') => (.skip, { st with inner := s' })
       | (.done, s') => (.done, { st with inner := s' })⟩
+
+/-- `iterator.While(iter, f)` = `&whileIterator{inner: iter, f: f, done: false}` -/
+def whileInit (s : σ) : WhileSt σ := { inner := s, done := itWhileInitDone }
 
 /-! ## Runs: one machine with an outer port and inner ports sharing the peekable -/
 
@@ -221,9 +262,13 @@ def runsInner (same : α → α → Bool) (m : IM σ α) (g : Nat) (st : RunsSt 
     else
       match peekPeek m st.pk with
       | (.skip, pk') => (.skip, { st with pk := pk' })
-      | (.done, pk') => (.done, { st with pk := pk', live := some (g', prev, if itRunsInnerDetaches then true else false) })
+      | (.done, pk') =>
+        -- `!ok || …`: the second operand is not evaluated
+        if itRunsInnerStops same prev prev false then
+          (.done, { st with pk := pk', live := some (g', prev, if itRunsInnerDetaches then true else false) })
+        else (.skip, { st with pk := pk' })
       | (.item a, pk') =>
-        if !same prev a then
+        if itRunsInnerStops same prev a true then
           (.done, { st with pk := pk', live := some (g', prev, if itRunsInnerDetaches then true else false) })
         else
           let (r, pk'') := peekNext m pk'
@@ -293,9 +338,10 @@ def reduce (m : IM σ α) (f : β → α → β) : Nat → β → σ → Option 
     | (.skip, s') => reduce m f fuel acc s'
     | (.done, s') => (some acc, s')
 
-/-- `iterator.Collect` (= `Reduce` with append). -/
+/-- `iterator.Collect(iter)` = `Reduce(iter, nil, func(out []T, item T) []T { return append(out, item) })`
+(regenerated body; `Reduce`, `nil` and `append` as parameters). -/
 def collect (m : IM σ α) (fuel : Nat) (s : σ) : Option (List α) × σ :=
-  reduce m (fun (acc : List α) a => acc ++ [a]) fuel [] s
+  itCollectW (fun (s : σ) (init : List α) (f : List α → α → List α) => reduce m f fuel init s) [] (fun acc a => acc ++ [a]) s
 
 inductive Outcome (ρ : Type v) where
   | ok (r : ρ)
@@ -323,20 +369,20 @@ def lastLoop (m : IM σ α) (n : Int) : Nat → List (Option α) → Int → σ 
 
 /-- The part of `Last` after the loop. -/
 def lastFinish (buf : List (Option α)) (i n : Int) : Outcome (List (Option α)) :=
-  if itLastShort i n then .ok (buf.take i.toNat)
+  if itLastShort i n then .ok (buf.take (itLastTake i n 0).toNat)
   else if itLastRotGuard n then
     if n = 0 then .panic
     else
       let idx := itLastIdx i n
       -- copy(out, buf[idx:]); copy(out[n-idx:], buf[:idx])
       let out : List (Option α) := List.replicate n.toNat none
-      let a := buf.drop idx.toNat
+      let a := buf.drop (itLastFrom i n idx).toNat
       let out := a ++ out.drop a.length
       let split := itLastSplit n idx
       if split < 0 || split > n then .panic   -- out[n-idx:] out of range
       else
         let k := split.toNat
-        let b := buf.take idx.toNat
+        let b := buf.take (itLastUpto i n idx).toNat
         .ok ((out.take k ++ b ++ out.drop (k + b.length)).take n.toNat)
   else .ok (List.replicate n.toNat none)
 
@@ -349,42 +395,50 @@ def last (m : IM σ α) (n : Int) (fuel : Nat) (s : σ) : Outcome (List (Option 
     | (.panic, s') => (.panic, s')
     | (.fuel, s') => (.fuel, s')
 
-/-- `iterator.One`: `some a` iff exactly one item. -/
+/-- `iterator.One`: `some a` iff exactly one item (`if !ok { return zero, false }` after the first `Next`,
+`if ok { return zero, false }` after the second: the two regenerated tests). -/
 def one (m : IM σ α) (fuel : Nat) (s : σ) : Option (Option α) × σ :=
   match drive m fuel s with
   | (none, s') => (none, s')
-  | (some none, s') => (some none, s')
-  | (some (some x), s') =>
-    match drive m fuel s' with
-    | (none, s'') => (none, s'')
-    | (some (some _), s'') => (some none, s'')
-    | (some none, s'') => (some (some x), s'')
+  | (some r1, s') =>
+    if itOneEmpty r1.isSome then (some none, s')
+    else
+      match drive m fuel s' with
+      | (none, s'') => (none, s'')
+      | (some r2, s'') => if itOneMore r2.isSome then (some none, s'') else (some r1, s'')
+
+/-- the header of the inner loop of `iterator.Equal` is `for i := 1; i < len(iters); i++` (regenerated start
+and condition): the iterators after the first are visited in order -/
+def equalLoopOk : Bool := itEqualStart == 1 && itEqualLoops 1 2 && !itEqualLoops 2 2
 
 /-- One round of `iterator.Equal`: pull every iterator once (first to last), stop at the first
-mismatch (the later iterators are then not pulled). `none` = out of fuel. -/
+mismatch (the later iterators are then not pulled). `none` = out of fuel. `ref` = what the first
+iterator answered. -/
 def equalRound [DecidableEq α] (m : IM σ α) (fuel : Nat) (ref : Option α) : List σ → Option Bool × List σ
   | [] => (some true, [])
   | s :: r =>
     match drive m fuel s with
     | (none, s') => (none, s' :: r)
     | (some x, s') =>
-      if x.isSome ≠ ref.isSome then (some false, s' :: r)
-      else if ref.isSome && x ≠ ref then (some false, s' :: r)
+      if itEqualLenDiff ref.isSome x.isSome then (some false, s' :: r)
+      else if itEqualItemDiff ref.isSome ref x then (some false, s' :: r)
       else
         let (b, r') := equalRound m fuel ref r
         (b, s' :: r')
 
 /-- `iterator.Equal(iters...)`. -/
 def equal [DecidableEq α] (m : IM σ α) (fuel : Nat) : Nat → List σ → Option Bool × List σ
-  | _, [] => (some true, [])
+  | _, [] => (if itEqualNone 0 then some true else none, [])
   | 0, ss => (none, ss)
   | rounds + 1, s :: r =>
+    if !equalLoopOk then (none, s :: r)
+    else
     match drive m fuel s with
     | (none, s') => (none, s' :: r)
     | (some x, s') =>
       match equalRound m fuel x r with
       | (none, r') => (none, s' :: r')
       | (some false, r') => (some false, s' :: r')
-      | (some true, r') => if x.isNone then (some true, s' :: r') else equal m fuel rounds (s' :: r')
+      | (some true, r') => if itEqualDone x.isSome then (some true, s' :: r') else equal m fuel rounds (s' :: r')
 
 end Juniper.Model.Iter
